@@ -148,6 +148,20 @@ func main() {
 		}
 		cases = append(cases, c)
 	}
+	// late augments: the target runs through / ends at an implied case, so the augment can only be
+	// applied in the last Augment pass, after the first FixChoice; the body brings short-hand choice
+	// members of its own, and the augment is written in the owner, a submodule or an importer, so the
+	// grafted nodes live in another module's tree than the one that had the augment pending
+	nLate := n / 4
+	for i := 0; i < nLate; i++ {
+		r := f.Rand(1000003 + i)
+		set := gen.Generate(r, cfg)
+		gen.AddLateAugments(r, set)
+		names, texts := set.Files()
+		cases = append(cases, rescorr.Case{Names: names, Texts: texts, Extra: map[string]string{"label": "late"}})
+	}
+	cases = append(corpusCases(), cases...)
+	nCorpus := len(corpusCases())
 	outs := rescorr.RunAll(cases, f)
 	distinct := lib.NewDistinct()
 	var clean, late, withErr, outside, skipped int64
@@ -196,14 +210,17 @@ func main() {
 			}
 		} else {
 			clean++
+			if o.Case.Extra["label"] == "late" || o.Case.Extra["label"] == "corpus" {
+				res.Count("clean_sets_with_late_augments", 1)
+			}
 			if distinct.Add(strings.Join(o.Case.Texts, "\x00")) && i%(len(outs)/6+1) == 0 {
 				res.AddSample(map[string]any{"files": o.Case.Names, "first_text": o.Case.Texts[0], "records": len(o.Go.Dump)})
 			}
 		}
 	}
-	res.Evaluations = int64(n)
+	res.Evaluations = int64(n + nLate + nCorpus)
 	res.DistinctNontrivial = distinct.Len()
-	res.Rule = "seeded grammar-directed module sets (harness/gen: 1-3 modules, submodules with nested includes, groupings/uses, choices, rpc/action, notifications, augments, deviations, tiny name pools, deliberate faults at a low rate); distinct_nontrivial = distinct sets (by text) on which Process reports no errors, i.e. where the tree invariant is actually checked"
+	res.Rule = "seeded grammar-directed module sets (harness/gen: 1-3 modules, submodules with nested includes, groupings/uses, choices, rpc/action, notifications, augments, deviations, tiny name pools, deliberate faults at a low rate; plus n/4 sets with late augments added by gen.AddLateAugments - target through or at an implied case, body with short-hand choice members, written in owner / submodule / importer - and a fixed corpus of such sets); distinct_nontrivial = distinct sets (by text) on which Process reports no errors, i.e. where the tree invariant is actually checked"
 	res.Distribution["clean_sets"] = clean
 	res.Distribution["sets_with_errors"] = withErr
 	res.Distribution["sets_with_late_errors(merge/deviation)"] = late
@@ -217,4 +234,55 @@ func firstLine(s string) string {
 		return s[:i]
 	}
 	return s
+}
+
+// corpusCases: fixed sets for the re-parenting / late paths that random generation reaches rarely.
+func corpusCases() []rescorr.Case {
+	mk := func(kv ...string) rescorr.Case {
+		c := rescorr.Case{Extra: map[string]string{"label": "corpus"}}
+		for i := 0; i+1 < len(kv); i += 2 {
+			c.Names = append(c.Names, kv[i])
+			c.Texts = append(c.Texts, kv[i+1])
+		}
+		return c
+	}
+	return []rescorr.Case{
+		// an importer augments through the implied case of a short-hand member; the body has a choice
+		// with short-hand members: only applicable in the last pass, grafted into the other module's tree
+		mk("base.yang", `module base { namespace "urn:base"; prefix b;
+  container c { choice ch { container x { leaf l { type string; } } } }
+}
+`, "aug.yang", `module aug { namespace "urn:aug"; prefix a; import base { prefix b; }
+  augment "/b:c/b:ch/b:x/b:x" { choice inner { leaf y { type string; } container z { leaf w { type string; } } } }
+}
+`),
+		// the same from a submodule, from an importer, below an rpc input, and at the implied case of a leaf
+		mk("a.yang", `module a { namespace "urn:a"; prefix a; include asub;
+  container top { choice ch { container x { leaf own { type string; } } leaf lf { type string; } } }
+  rpc op { input { choice how { container slow { leaf t { type string; } } } } }
+  leaf start { type string; }
+}
+`, "asub.yang", `submodule asub { belongs-to a { prefix as; }
+  augment "/as:top/as:ch/as:x/as:x" { choice fromsub { leaf sy { type string; } container sz { leaf sw { type string; } } } }
+}
+`, "b.yang", `module b { namespace "urn:b"; prefix b; import a { prefix a; }
+  augment "/a:top/a:ch/a:x/a:x" { choice inner { leaf y { type string; } container z { choice deep { leaf dz { type string; } } } } }
+  augment "/a:op/a:input/a:how/a:slow/a:slow" { choice retry { leaf once { type empty; } } }
+  augment "/a:top/a:ch/a:lf" { choice atcase { leaf q { type string; } } }
+  leaf start { type string; }
+}
+`),
+		// two importers into one target, one of them with nothing else pending
+		mk("t.yang", `module t { namespace "urn:t"; prefix t;
+  list l { key k; leaf k { type string; } choice c { container m { leaf n { type string; } } } }
+}
+`, "u.yang", `module u { namespace "urn:u"; prefix u; import t { prefix t; }
+  augment "/t:l/t:c/t:m/t:m" { choice cu { leaf-list ll { type string; } } }
+}
+`, "v.yang", `module v { namespace "urn:v"; prefix v; import t { prefix t; }
+  augment "/t:l" { leaf early { type string; } }
+  augment "/t:l/t:c/t:m/t:m" { choice cv { container cc { leaf x { type string; } } } }
+}
+`),
+	}
 }
